@@ -1080,6 +1080,8 @@ pub struct ExploreStats {
     pub choice_points: u64,
     pub faulted_executions: u64,
     pub capped: bool,
+    /// default executions that were run a second time and compared
+    pub replayed_twice: u64,
     /// called with the choice prefix before every execution (trace mode)
     pub pre: Option<Box<dyn Fn(&[usize])>>,
 }
@@ -1110,6 +1112,44 @@ pub fn explore<F: FnMut(&RunResult, &[usize])>(
             pre(&prefix);
         }
         let res = run_once(spec, &prefix);
+        if let Some(d) = &res.divergence {
+            crate::procpar::machinery_error(&format!("a recorded choice prefix did not replay: {d}"));
+        }
+        if prefix.is_empty() {
+            // every source of nondeterminism must be owned: the default
+            // execution of every exploration is run twice and must give the
+            // same observation (answers, exchange log, choice points, cache)
+            let again = run_once(spec, &prefix);
+            let fp = |r: &RunResult| {
+                format!(
+                    "{:?}|{}|{:?}|{:?}",
+                    // (records as a sorted multiset: HashMap iteration order inside
+                    // the code under test may legitimately differ between runs)
+                    r.asks
+                        .iter()
+                        .map(|a| match &a.outcome {
+                            Outcome::Ok(rec) => format!(
+                                "ok {:?} soa {:?}",
+                                canon_rrs(&rec.clone().rrs()),
+                                rec.soa_rr().map(show_rr)
+                            ),
+                            other => show_outcome(other).to_string(),
+                        })
+                        .collect::<Vec<_>>(),
+                    show_log(&r.log),
+                    r.points.iter().map(|p| (p.arity, p.taken)).collect::<Vec<_>>(),
+                    r.asks.iter().map(|a| canon_rrs(&a.cache_after)).collect::<Vec<_>>()
+                )
+            };
+            if fp(&res) != fp(&again) {
+                crate::procpar::machinery_error(&format!(
+                    "the same execution gave two different observations (nondeterminism not owned): {} vs {}",
+                    fp(&res),
+                    fp(&again)
+                ));
+            }
+            stats.replayed_twice += 1;
+        }
         stats.executions += 1;
         stats.exchanges += res.log.len() as u64;
         stats.choice_points += res.points.len() as u64;
